@@ -224,7 +224,7 @@ def run_shard(spec, rec):
         run_case({"idx": i, "seed": spec["seed"], "cfg": cfg, "threshold": [None, None, None, 5e-5, 2e-3][i % 5]}, rec, mon)
         if i % 10 == 2:
             # the same layout again in this process, as new bank objects under other thresholds (lower, then higher)
-            for thr in (5e-5, 2e-3):
+            for thr in (5e-5, 2e-3, 1e-6, 1e-8):
                 run_case({"idx": i, "seed": spec["seed"], "cfg": cfg, "threshold": thr}, rec, mon)
             rec.count("layouts_rebuilt_under_other_thresholds")
     rec.extra["worst_ratio_to_bound"] = {"%s %s" % k: round(v, 4) for k, v in sorted(mon.worst.items())}
@@ -244,6 +244,12 @@ def classify(w):
     """a gammatone filter so wide that its effective frequency support (response above the threshold) spans several periods
     of the sampling rate: the periodised response is summed over exactly those periods, and the tails of the infinitely many
     left out, each below the threshold, add up to slightly more than one threshold per side"""
-    if w.get("check") == "ifft" and w.get("cls") == "ComplexGammatoneFilterBank" and w.get("periods_spanned", 0) >= 6 and w.get("ratio", 99) <= 2.5:
-        return "gammatone-many-period-tails-exceed-2T"
+    if w.get("check") == "ifft" and w.get("cls") == "ComplexGammatoneFilterBank" and w.get("periods_spanned", 0) >= 6:
+        # what the neglected tails can add up to: each side's first left-out period is below one threshold and the following ones fall
+        # off as (1 + k / (P / 2)) ** -order, P the number of periods spanned: 2 T (1 + (P / 2) / (order - 1)) in all.  Anything larger
+        # is not this finding.  (Without the configuration at hand only the mildest form, up to 2.5 T, is recognised.)
+        order = (w.get("cfg") or {}).get("order")
+        bound = 2.5 if not order or order < 2 else max(2.5, 2.0 + w["periods_spanned"] / (order - 1))
+        if w.get("ratio", 1e9) <= bound:
+            return "gammatone-many-period-tails-exceed-2T"
     return None
